@@ -307,3 +307,67 @@ theorem set_steady (sc : SetCaps) (rs1 rs2 : RecordSet) (c1 c2 : Bool)
 end Fq
 
 end SeqIo.Alloc
+
+/-! ## Memory is bounded by the largest demand, not by the length of the history (C16) -/
+
+namespace SeqIo.Alloc
+
+theorem pushTo_bound (mnz M : Nat) : ∀ (fuel cap target : Nat), target ≤ M → cap ≤ max mnz (2 * M) →
+    (pushTo mnz fuel cap target).1 ≤ max mnz (2 * M)
+  | 0, cap, _, _, hc => by simpa [pushTo] using hc
+  | f + 1, cap, target, ht, hc => by
+    unfold pushTo
+    split
+    · simpa using hc
+    · rename_i hlt
+      have hlt' : cap < target := Nat.lt_of_not_le hlt
+      have hstep : amortized mnz cap (cap + 1) ≤ max mnz (2 * M) := by
+        unfold amortized
+        omega
+      simpa using pushTo_bound mnz M f _ target ht hstep
+
+/-- a vector filled by single pushes never has more than twice the room of the largest fill (or the minimum
+non-zero capacity), however many times it is cleared and refilled -/
+theorem Cap.push_bound (mnz M : Nat) (c : Cap) (t : Nat) (ht : t ≤ M) (hc : c.lb ≤ max mnz (2 * M)) :
+    (c.push mnz t).1.lb ≤ max mnz (2 * M) := by
+  unfold Cap.push
+  split
+  · exact hc
+  · split
+    · exact pushTo_bound mnz M t c.lb t ht hc
+    · simp; omega
+
+theorem Cap.extend_bound (mnz M : Nat) (c : Cap) (n : Nat) (hn : n ≤ M) (hc : c.lb ≤ max mnz (2 * M)) :
+    (c.extend mnz n).1.lb ≤ max mnz (2 * M) := by
+  unfold Cap.extend
+  split
+  · exact hc
+  · rename_i hlt
+    split
+    · simp only [amortized]
+      omega
+    · simp; omega
+
+/-- any history of refills of one vector (`clear(); extend(n_i)`), of any length: the capacity stays below
+twice the largest refill -/
+theorem extend_history_bound (mnz M : Nat) (c : Cap) (ns : List Nat) (hns : ∀ n ∈ ns, n ≤ M)
+    (hc : c.lb ≤ max mnz (2 * M)) :
+    (ns.foldl (fun c n => (c.extend mnz n).1) c).lb ≤ max mnz (2 * M) := by
+  induction ns generalizing c with
+  | nil => simpa using hc
+  | cons n ns ih =>
+    simp only [List.foldl_cons]
+    exact ih _ (fun m hm => hns m (List.mem_cons_of_mem _ hm))
+      (Cap.extend_bound mnz M c n (hns n (List.mem_cons_self ..)) hc)
+
+theorem push_history_bound (mnz M : Nat) (c : Cap) (ns : List Nat) (hns : ∀ n ∈ ns, n ≤ M)
+    (hc : c.lb ≤ max mnz (2 * M)) :
+    (ns.foldl (fun c n => (c.push mnz n).1) c).lb ≤ max mnz (2 * M) := by
+  induction ns generalizing c with
+  | nil => simpa using hc
+  | cons n ns ih =>
+    simp only [List.foldl_cons]
+    exact ih _ (fun m hm => hns m (List.mem_cons_of_mem _ hm))
+      (Cap.push_bound mnz M c n (hns n (List.mem_cons_self ..)) hc)
+
+end SeqIo.Alloc
